@@ -10,6 +10,7 @@ the cryptographic half (collision resistance).
 from __future__ import annotations
 
 import ast
+import re as _re
 import itertools
 from typing import Dict, FrozenSet, List, Optional, Set, Tuple
 
@@ -102,8 +103,14 @@ def r2_open_coverage(P, rep, ctx):
     if len(calls) < 3:
         raise AnalysisError(f"C04.R2: only {len(calls)} _check_ublock calls in _open")
 
+    elem_of: Dict[str, str] = {}  # loop element variable -> the indexed expression it stands for
+
     def args(c):
-        return [f.x(a) for a in c.args] + [f"{k.arg}={f.x(k.value)}" for k in c.keywords]
+        pos = M.positional(c)
+        out = [f.x(a) for a in c.args] + [f"{k.arg}={f.x(k.value)}" for k in c.keywords] if pos is None else [f.x(a) for a in pos]
+        for ev, ix in elem_of.items():
+            out = [_re.sub(rf"\b{_re.escape(ev)}\b", ix, t) for t in out]
+        return out
 
     many = (f"len({rv}.__files__) > 1", f"len({rv}.__files__) >= 2", f"1 < len({rv}.__files__)")
     base = [n for n, c, b in calls if args(c)[:3] == [f"{rv}.__files__[0].filename", f"{rv}._ublock(0)", "None"]]
@@ -120,9 +127,20 @@ def r2_open_coverage(P, rep, ctx):
     rep.check(ab == ["kwargs.pop('allow_baseless', False)"], "C04.R2", fi.qual, "baseless sets are only accepted on explicit request (default False)", fi.loc(), construct=f"allow_baseless = {ab}", message=f"allow_baseless is {ab}")
     # middle containers
     loops = [n for n in g.nodes if n.kind == "for" and f.x(n.stmt.iter) == f"range(1, len({rv}.__files__) - 1)"]
-    okm = False
+    lv = None
     if loops:
         lv = norm(loops[0].stmt.target)
+    else:
+        # the same index range as `for i, f in enumerate(files[1:-1], start=1)`: f is files[i]
+        for n in g.nodes:
+            if n.kind == "for" and isinstance(n.stmt.target, ast.Tuple) and len(n.stmt.target.elts) == 2 and all(isinstance(x, ast.Name) for x in n.stmt.target.elts):
+                it = f.x(n.stmt.iter)
+                if it in (f"enumerate({rv}.__files__[1:-1], start=1)", f"enumerate({rv}.__files__[1:-1], 1)"):
+                    loops = [n]
+                    lv = n.stmt.target.elts[0].id
+                    elem_of[n.stmt.target.elts[1].id] = f"{rv}.__files__[{lv}]"
+    okm = False
+    if loops:
         body_nodes = set()
         for st in loops[0].stmt.body:
             body_nodes |= {id(x) for x in ast.walk(st)}
